@@ -7,7 +7,7 @@ from ..qsim import *
 
 TOL = 1e-9
 NSLOT = {'u3': 3, 'cu3': 3}
-PARAM = {'rx', 'ry', 'rz', 'rzz', 'u3', 'crx', 'cry', 'crz', 'cu3'}
+PARAM = {'rx', 'ry', 'rz', 'rzz', 'u3', 'crx', 'cry', 'crz', 'cu3', 'foracle'}
 
 
 def phi_vec(n):
@@ -50,7 +50,7 @@ def replay_grad(ctx, gates, obs):
             else:
                 tg = tuple(q - 1 for q in g['tg'])
                 ctrl = {q - 1 for q in setof(g['ctrl'])}
-                circ.append_gate(objs[c], (ctrl, tg) if objs[c].kind == 'control' else tg)
+                circ.append_gate(objs[c], () if objs[c].kind == 'custom' else (ctrl, tg) if objs[c].kind == 'control' else tg)
         if circ.num_qubit != n:
             return
         phi = torch.tensor(phi_vec(n), dtype=torch.complex128)
@@ -98,12 +98,13 @@ def replay_grad(ctx, gates, obs):
                 got[c] = [float(x) for x in gr[j].reshape(-1)]
         exp = {}
         for c in cells:
-            exp[c] = [zo(t['val']).real / SQ2 ** t['e'] for t in obs['grad'][c - 1]]
+            unit = math.pi if any(g['op'] == 'foracle' and g['cell'] == c for g in gates) else 1.0       # Grad.tla states the oracle derivative in units of pi
+            exp[c] = [unit * zo(t['val']).real / SQ2 ** t['e'] for t in obs['grad'][c - 1]]
         for c in cells:
             ctx.evaluations += 1
             if len(got[c]) != len(exp[c]) or max(abs(a - b) for a, b in zip(got[c], exp[c])) > TOL:
                 g0 = [g for g in gates if g['op'] in PARAM and g['cell'] == c]
-                kind = ('placeholder' if g0[0]['holder'] else 'shared' if len(g0) > 1 else 'plain') + ('-controlled' if setof(g0[0]['ctrl']) else '')
+                kind = ('placeholder' if g0[0]['holder'] else 'shared' if len(g0) > 1 else 'plain') + ('-controlled' if setof(g0[0]['ctrl']) else '') + ('-custom' if g0[0]['op'] == 'foracle' else '')
                 ctx.violation('C04:circuit-backward:%s:%s' % (g0[0]['op'], kind), 'gradient of the circuit reverse sweep differs from the exact forward-mode derivative (cell %d, %s)' % (c, kind),
                               dict(data, cell=c, expected=exp[c], got=got[c]))
         # flat bridge used by the optimizer: gradient in sorted-parameter order
@@ -232,7 +233,7 @@ def run_sylvester(ctx):
 
 def run(ctx):
     quick = ctx.tier == 'quick'
-    ctx.rule = ('TLC-simulated parametrised circuits (<=3 qubits, <=8 gates) with plain, controlled, shared (same gate object re-appended) and placeholder parameter cells at grid angles; '
+    ctx.rule = ('TLC-simulated parametrised circuits (<=3 qubits, <=8 gates) with plain, controlled, shared (same gate object re-appended), placeholder and user-registered custom (Grover / fractional Grover oracle of numqi.query, hand-written grad_backward) parameter cells at grid angles; '
                 'exact forward-mode gradient per (cell,slot) compared with .grad of CircuitTorchWrapper and with the flat gradient of hf_model_wrapper; Knill-Laflamme inner product on '
                 'Gaussian-integer code words (forward and backward); distinct by program / instance')
     ctx.assumptions = ['TLC/SANY correct', 'tolerance 1e-9 (float64)', 'angles on the pi/2 grid (phases pi/4): index, ordering, accumulation and conjugation errors are angle independent']
@@ -251,7 +252,7 @@ def run(ctx):
             for g in final['gates']:
                 if g['op'] in PARAM:
                     same = [h for h in final['gates'] if h['op'] in PARAM and h['cell'] == g['cell']]
-                    k = ('placeholder' if g['holder'] else 'shared' if len(same) > 1 else 'plain') + ('-controlled' if setof(g['ctrl']) else '')
+                    k = ('placeholder' if g['holder'] else 'shared' if len(same) > 1 else 'plain') + ('-controlled' if setof(g['ctrl']) else '') + ('-custom' if g['op'] == 'foracle' else '')
                     kinds[k] = kinds.get(k, 0) + 1
         for k, v in kinds.items():
             ctx.extra.setdefault('parameter_kinds_exercised', {})[k] = ctx.extra.get('parameter_kinds_exercised', {}).get(k, 0) + v
@@ -259,7 +260,7 @@ def run(ctx):
             fin = tlc.parse_behaviour(r.sim_files[0])[-1][1]
             ctx.sample(dict(kind='gradient-program', program=[gate_str(g) + ('#c%d%s' % (g['cell'], 'P' if g['holder'] else '') if g['op'] in PARAM else '') for g in fin['gates']],
                             exact_gradient=[[zo(t['val']).real / SQ2 ** t['e'] for t in c] for c in fin['obs']['grad']]))
-    need = {'plain', 'shared', 'placeholder', 'plain-controlled'}
+    need = {'plain', 'shared', 'placeholder', 'plain-controlled', 'plain-custom'}
     missing = need - set(ctx.extra.get('parameter_kinds_exercised', {}))
     if missing:
         raise core.MachineryError('vacuous gradient run: parameter kinds never generated: %s' % sorted(missing))
